@@ -88,6 +88,29 @@ mxClassID mxGetClassID(const mxArray *pm);
 double mxGetScalar(const mxArray *pm);
 bool mxIsDouble(const mxArray *pm);
 bool mxIsComplex(const mxArray *pm);
+/* further documented queries (not called by the unchanged matlab.h; present so that edits of it still build) */
+bool mxIsEmpty(const mxArray *pm);
+size_t mxGetNumberOfElements(const mxArray *pm);
+mwSize mxGetNumberOfDimensions(const mxArray *pm);
+size_t mxGetElementSize(const mxArray *pm);
+bool mxIsNumeric(const mxArray *pm);
+bool mxIsChar(const mxArray *pm);
+bool mxIsLogical(const mxArray *pm);
+bool mxIsCell(const mxArray *pm);
+bool mxIsStruct(const mxArray *pm);
+bool mxIsSingle(const mxArray *pm);
+bool mxIsInt8(const mxArray *pm);
+bool mxIsUint8(const mxArray *pm);
+bool mxIsInt16(const mxArray *pm);
+bool mxIsUint16(const mxArray *pm);
+bool mxIsInt32(const mxArray *pm);
+bool mxIsUint32(const mxArray *pm);
+bool mxIsInt64(const mxArray *pm);
+bool mxIsUint64(const mxArray *pm);
+bool mxIsClass(const mxArray *pm, const char *classname);
+bool mxIsSparse(const mxArray *pm);
+bool mxIsScalar(const mxArray *pm);
+mxChar *mxGetChars(const mxArray *pm);
 char *mxArrayToString(const mxArray *pm);
 int mxGetString(const mxArray *pm, char *str, mwSize strlen);
 mxArray *mxGetField(const mxArray *pm, mwIndex index, const char *fieldname);
